@@ -674,7 +674,8 @@ pub fn bundle_letters(opts: &Opts) -> Vec<char> {
                 if opts.cargo.is_some() {
                     *raw = true;
                 }
-                go(&opts.root, false, flags, banned, raw)
+                // (a hidden command hides everything in it from the bundle splitter as well)
+                go(&opts.root, hidden, flags, banned, raw)
             }
             Shape::Wrap(w, i) => go(i, hidden || matches!(w, W::Hide), flags, banned, raw),
             Shape::Seq(xs, _) | Shape::Alt(xs) => {
